@@ -220,6 +220,7 @@ def witness_revert_inplace(out):
 def run(out, tier):
     n_clean, n_full = (40, 40) if tier == "quick" else (600, 900)
     plans = [("witness-alias", hc.witness_alias_change()), ("witness-file-boundary", hc.witness_file_boundary())]
+    plans.append(("witness-glob-syntax", hc.witness_glob_syntax()))
     # byte-shift edits (a byte moves from the end of one input file to the start of the next) are part of BOTH streams: the key
     # encoding is framed (C09_injective), such an edit changes the key and the target is rebuilt (former finding C01-F2)
     plans += [("clean", hc.plan_edits(hc.CLEAN, nedits=3))] * n_clean
